@@ -309,6 +309,44 @@ impl<'a> World<'a> {
         }
     }
 
+    /// A process crash between two operations followed by a restart: the file as it is on disk now (acknowledged
+    /// operations still in the log) is what the next open finds. The copy is taken while the handle lives, the
+    /// handle is dropped (its drop-time commit goes to the old inode and is discarded) and the copy is put in place.
+    /// Unlike `op_reopen` this makes `Memvid::open` replay the log.
+    pub fn op_crash_reopen(&mut self) -> bool {
+        let dirty = !self.model.pending.is_empty();
+        let image = self.path.with_extension("crashimg");
+        if let Err(e) = std::fs::copy(&self.path, &image) {
+            self.rep.inconclusive(json!({"reason": format!("cannot copy the file for a crash image: {e}")}));
+            return true;
+        }
+        self.mem = None;
+        self.batch = false;
+        if let Err(e) = std::fs::rename(&image, &self.path) {
+            self.rep.inconclusive(json!({"reason": format!("cannot put the crash image in place: {e}")}));
+            self.failed = true;
+            return false;
+        }
+        match Memvid::open(&self.path) {
+            Ok(m) => {
+                self.mem = Some(m);
+                self.rep.count("crash_reopens");
+                if dirty { self.rep.count("crash_reopens_replaying_the_log"); }
+                if !self.sync("after crash + reopen") { return false; }
+                if !self.model.pending.is_empty() {
+                    self.violation("C01:replay-lost-acknowledged-operations", format!("after a crash image was reopened {} acknowledged operation(s) are not visible", self.model.pending.len()));
+                    return false;
+                }
+                true
+            }
+            Err(e) => {
+                let ctx = if self.second_op_on_uncommitted_target { String::new() } else { format!(":{}", if dirty { "with-pending-records" } else { "clean" }) };
+                self.violation(&format!("C01:open-of-crash-image-failed:{}{ctx}", err_kind(&e)), format!("open of the on-disk state between two operations failed: {e}"));
+                false
+            }
+        }
+    }
+
     pub fn op_vacuum(&mut self) -> bool {
         match self.mem().vacuum() {
             Ok(()) => { self.rep.count("vacuums"); self.sync("after vacuum") }
@@ -424,8 +462,11 @@ fn gen_op(w: &mut World<'_>, cfg: &HistCfg) -> Value {
         json!({"op": if w.rng.chance(1, 2) { "delete-invalid" } else { "update-invalid" }, "target": t})
     } else if roll < 82 {
         json!({"op": "commit"})
-    } else if roll < 92 {
+    } else if roll < 88 {
         json!({"op": "reopen"})
+    } else if roll < 92 {
+        // batch mode defers the per-record fsync: a copy of the file is then not a faithful crash image
+        if w.batch { json!({"op": "reopen"}) } else { json!({"op": "crash-reopen"}) }
     } else if roll < 95 && cfg.maintenance {
         json!({"op": "vacuum"})
     } else if roll < 98 && cfg.maintenance {
@@ -469,6 +510,7 @@ pub fn exec_op(w: &mut World<'_>, cfg: &HistCfg, op: &Value) -> bool {
         }
         "commit" => { let r = w.op_commit(); if r { w.commits_done += 1; } r }
         "reopen" => w.op_reopen(),
+        "crash-reopen" => w.op_crash_reopen(),
         "vacuum" => { let r = w.op_commit(); if r { w.commits_done += 1; } r && w.op_vacuum() }
         "doctor" => {
             let b = |k: &str| op.get(k).and_then(Value::as_bool).unwrap_or(false);
